@@ -38,9 +38,10 @@ RULE = ("1-3 user nodes (UserInput / two-output function node; values from a poo
         "(ambiguous) or nodes returned by earlier steps; operands are raw pool values, channels, nodes or earlier "
         "results; ~20% of the steps repeat an earlier step (other spelling), ~20% are near-identical variants "
         "(1 vs '1' vs True vs 1.0, None vs 'None', a channel vs the string spelling its scoped label, swapped "
-        "operands, other receiver); each returned node is pulled with p=0.6. Non-trivial = at least one node was "
+        "operands, other receiver); plus a family of identifier labels that make the '_'-join of the label ambiguous; "
+        "each returned node is pulled with p=0.6. Non-trivial = at least one node was "
         "injected; distinct = distinct (graph, program)")
-TRUSTED = ["CPython's operators, str() and slice() enter the model as a finite table computed by the real interpreter "
+TRUSTED = ["CPython's operators, repr()/str() and slice() enter the model as a finite table computed by the real interpreter "
            "on the values a case can reach (Inject.tbl_pyop / tbl_str); a missing row can only produce a disagreement",
            "the library's `hash` is observed by shadowing the name `hash` in pyiron_workflow.mixin.injection with a "
            "recording wrapper around the builtin; nominal labels are compared after substituting, inside them, every "
@@ -53,7 +54,10 @@ ASSUMPTIONS = ["hash of the nominal label is injective (Section hypothesis hash_
                "nodes do not change during a scenario",
                "Node.pull of an injected node = run the upstream closure (through parent.run() inside a Workflow, "
                "including the Workflow's own input cache as keyed during run_data_tree's temporary renaming), then the "
-               "node itself; pull as such is property C11's subject, the composite cache C05's"]
+               "node itself; pull as such is property C11's subject, the composite cache C05's: a pull that the "
+               "Workflow's own cache turns into a no-op upstream (earlier successful pull, no child added since, same "
+               "value-holding nodes in the data tree) raises ReadinessError before the injected node can run -- the "
+               "model reproduces it, the oracle gives no verdict on it (no C18 clause speaks about a node that never ran)"]
 
 
 # ---- harness node classes (module level: the library reads their source) --------------------
